@@ -13,7 +13,11 @@ Local Open Scope R_scope.
 (* unfold everything the translator produced (whatever its names are after regeneration) down to the
    operations of R, which stay folded *)
 Declare Reduction rred := cbv -[Rplus Rmult Rminus Ropp Rdiv Rinv IZR sqrt exp ln sin cos tan atan asin acos sinh cosh tanh arcsinh
-                   Rabs PI powerRZ Rcbrt Ratan2 Rltb Rleb Reqb Rlt_dec Rle_dec Req_EM_T].
+                   Rabs PI powerRZ Rpower Rcbrt Ratan2 Rltb Rleb Reqb Rlt_dec Rle_dec Req_EM_T].
+(* the same, keeping the i32 arithmetic of integer exponents folded (symbolic exponents must not be normalised) *)
+Declare Reduction rredZ := cbv -[Rplus Rmult Rminus Ropp Rdiv Rinv IZR sqrt exp ln sin cos tan atan asin acos sinh cosh tanh arcsinh
+                   Rabs PI powerRZ Rpower Rcbrt Ratan2 Rltb Rleb Reqb Rlt_dec Rle_dec Req_EM_T wrap32 Z.sub Z.mul Z.add Z.opp].
+Ltac rcbvZ := match goal with |- ?G => let G' := eval rredZ in G in change G' end.
 Ltac rcbv := match goal with |- ?G => let G' := eval rred in G in change G' end.
 Ltac rcbv_in H := let T := type of H in let T' := eval rred in T in change T' in H.
 
